@@ -210,6 +210,29 @@ func zvC26Scenarios() []zvScenario {
 			func() { s.cA.deliver(zvwNotification(6, 4)) },
 		}
 	})
+	mkFrom("R10 metrics||api rib readers||keepalive (establishment)", []string{evT15, evOpen}, func(s *zvSess) []func() {
+		ip := zvPeerIP(s.cfg.A)
+		return []func(){
+			func() { s.w.srv.Metrics() },
+			func() {
+				if r := s.w.srv.GetRIBIn(s.w.vrf, ip, packet.AFIIPv4, packet.SAFIUnicast); r != nil {
+					r.Dump()
+				}
+				if r := s.w.srv.GetRIBOut(s.w.vrf, ip, packet.AFIIPv4, packet.SAFIUnicast); r != nil {
+					r.Dump()
+				}
+				s.pA.dumpRIBIn(packet.AFIIPv4, packet.SAFIUnicast)
+			},
+			func() { s.cA.deliver(zvwKeepalive()) },
+		}
+	})
+	mkFrom("R11 metrics||peer list||open (negotiation)", []string{evT15}, func(s *zvSess) []func() {
+		return []func(){
+			func() { s.w.srv.Metrics() },
+			func() { s.w.srv.GetPeers() },
+			func() { s.cA.deliver(zvRemoteOpen(s.cfg.A, 0x09090909).bytes()) },
+		}
+	})
 	mkFrom("R9 policy replace||incoming connection||config read", []string{evT15}, func(s *zvSess) []func() {
 		ip := zvPeerIP(s.cfg.A)
 		return []func(){
